@@ -484,10 +484,37 @@ func (r *Runner) invariants(i int, n *Node, s *Step, t *Transcript, faulted bool
 		}
 	case t.Class != "ok":
 		if len(t.Writes) > 0 && !tempCommitWrites(t) {
-			first := t.Writes[0].Seq
-			inCommit := t.EndSeq >= 0 && first > t.EndSeq && len(t.Fired) > 0 && t.FiredSeq > t.EndSeq
-			if !inCommit {
-				r.violate("C24", "failed-tx.no-writes", i, name, "failed-tx-write", "failed transaction (%s %s) issued %d register writes, first %s at seq %d (END at %d, fault at %d)", t.Class, t.ErrType, len(t.Writes), t.Writes[0].Key, first, t.EndSeq, t.FiredSeq)
+			first := t.Writes[0]
+			// the only legitimate register writes of a failed transaction: the failure is the failure of a register write
+			// itself (host fault at SetValue), i.e. the commit had begun and the host discards the partial write set
+			writeFailed := false
+			gaugeInCommit := false
+			for _, f := range t.Fired {
+				if strings.HasSuffix(f, ":SetValue") {
+					writeFailed = true
+				}
+				if strings.Contains(f, "@g") && t.EndSeq >= 0 && first.Seq > t.EndSeq {
+					gaugeInCommit = true
+				}
+			}
+			onlyStored := true
+			for _, w := range t.Writes {
+				if !strings.HasSuffix(w.Key, "|73746f726564") { // "stored": the account storage register
+					onlyStored = false
+				}
+			}
+			lastWrite := t.Writes[len(t.Writes)-1].Seq
+			switch {
+			case writeFailed && t.EndSeq >= 0 && first.Seq > t.EndSeq:
+			case n.Cfg.AtreeValidation && t.EndSeq >= 0 && first.Seq > t.EndSeq && t.FiredSeq > lastWrite:
+				// debug configuration: with atree validation enabled the runtime re-reads and decodes the committed slabs
+				// after the commit; a metering limit reached there fails the transaction after all its writes
+				r.Stats.Probes["limit_in_post_commit_validation"]++
+			case gaugeInCommit && onlyStored:
+				// upstream writes the account-storage register of new accounts before the commit-time metering
+				r.violate("C24", "failed-tx.no-writes", i, name, "commit-metering-after-stored-register", "transaction failed by a metering limit during commit after %d account storage register write(s) (%s)", len(t.Writes), first.Key)
+			default:
+				r.violate("C24", "failed-tx.no-writes", i, name, "failed-tx-write", "failed transaction (%s %s) issued %d register writes, first %s at seq %d (END at %d, fault %v at seq %d)", t.Class, t.ErrType, len(t.Writes), first.Key, first.Seq, t.EndSeq, t.Fired, t.FiredSeq)
 			}
 		}
 	default:
@@ -916,17 +943,23 @@ func (r *Runner) checkFaulted(i int, n *Node, t *Transcript, region string) {
 		}
 	}
 	if host {
+		if region == "" {
+			region = t.RegionAt(t.FiredSeq)
+		}
 		key := fmt.Sprintf("swallow:%s:%s", n.Cfg.Engine, site)
+		if region == "ITER" {
+			key = "swallow-in-storage-iteration:" + site
+		}
 		switch {
 		case t.Escaped != "":
 			r.violate("C28", "host-fault.escaped", i, name, "escaped:"+site, "injected host panic at %s escaped the runtime API: %s", site, firstLine(t.Escaped))
 		case t.Class == "ok":
-			if site == "ValidatePublicKey" || region == "tryUpdate" {
+			if site == "ValidatePublicKey" || region == "TRY" {
 				return
 			}
 			r.violate("C28", "host-fault.success", i, name, key, "host fault %v was swallowed: execution reported success", t.Fired)
 		case !t.CarriesInjected():
-			if site == "ValidatePublicKey" || region == "tryUpdate" {
+			if site == "ValidatePublicKey" || region == "TRY" {
 				return
 			}
 			r.violate("C28", "host-fault.carry", i, name, key, "host fault %v not carried by the resulting error (%s %s): %s", t.Fired, t.Class, t.ErrType, t.ErrMsg)
